@@ -11,7 +11,7 @@ from . import simple as S
 PROPERTY = "C20"
 META = {
     "explanation": "object-graph property decided on symbolic executions of the real constructors/decoders/mutators: B's length, item identities and encoding are compared (solver-proved equal for all item contents) before and after A is mutated; modules are re-loaded per path so default-argument state cannot hide",
-    "bounds": {"quick": {"instances_per_class": "A, B, and C created after the mutation", "mutations": "add 1-2 items, remove, in-place sample edit, bulk assign", "routes": "default ctor, explicit (distinct) lists, decode twice"},
+    "bounds": {"quick": {"instances_per_class": "A, B, and C created after the mutation", "mutations": "add 1-2 items, remove, in-place sample edit, bulk assign", "routes": "default ctor, explicit (distinct) lists, decode twice; through Tdf getters: the same block read twice, and what a getter hands out for an absent block (events, emg) read from two files"},
                "thorough": {"instances_per_class": "A, B, C", "mutations": "same plus two-step mutations on both A and C", "routes": "same"}},
     "outside_bounds": ["aliasing introduced by the caller (the same list / ndarray object passed to two constructors)", "more than three instances"],
     "assumptions": ["symnp view semantics (frombuffer results read-only, slices alias their base)"],
